@@ -45,6 +45,18 @@ fn z_kind(e: &StorageEngine, key: &[u8]) -> u8 {
 fn fake_thread_rng() -> rand::rngs::ThreadRng {
     unsafe { std::mem::transmute::<usize, rand::rngs::ThreadRng>(8usize) }
 }
+/// Stub for `SkipList::new`: only the absent-key branches of zadd/zincrby call it; every harness
+/// here starts with the key present, so reaching it is reported (assert), and the branch behind
+/// it (shard-map insertion of a fresh set) is not part of these harnesses.
+fn new_cut<K, V>() -> SkipList<K, V>
+where
+    K: Clone + Ord + std::fmt::Debug + std::hash::Hash + Eq + Default,
+    V: Clone + PartialOrd + std::fmt::Debug + Default,
+{
+    assert!(false, "absent-key branch (SkipList::new) reached although the key holds a sorted set");
+    kani::assume(false);
+    loop {}
+}
 const KEY: &[u8] = b"z";
 
 /// engine with key "z" holding an arbitrary valid sorted set of the given tower shape
@@ -101,7 +113,7 @@ enum Reg {
 /// ZADD z score m on an existing sorted set: any member byte, ANY f64 bit pattern as score.
 /// A NaN score must be refused and leave the set unchanged; otherwise the member is present
 /// once with its latest score, reply = "is new".
-fn body_zadd<const N: usize>(h: [usize; N], reg: Reg) {
+fn body_zadd<const N: usize>(h: [usize; N], reg: Reg, lvl: usize) {
     let (e, al, k, s) = z_state::<N>(h);
     let m: u8 = kani::any();
     let score: f64 = kani::any();
@@ -110,7 +122,7 @@ fn body_zadd<const N: usize>(h: [usize; N], reg: Reg) {
         Reg::Rest => kani::assume(!score.is_nan()),
         Reg::Kf => kani::assume(score.is_nan()),
     }
-    ZL::verif_set_level_any();
+    ZL::verif_set_level(lvl);
     let r = std::mem::ManuallyDrop::new(e.zadd(0, KEY.to_vec(), vec![m], score));
     let pos = pos_of(&k, m);
     if score.is_nan() {
@@ -134,7 +146,9 @@ fn body_zadd<const N: usize>(h: [usize; N], reg: Reg) {
         }
     }
     assert!(z_kind(&e, KEY) == 1, "key still holds the sorted set");
-    kani::cover!(pos.is_none(), "new member");
+    // one witness; in the known-finding region it only says that the end is reached (i.e. after a repair)
+    let w = if reg == Reg::Kf { true } else { pos.is_none() && score == f64::NEG_INFINITY };
+    kani::cover!(w, "witness: new member with score -inf");
     std::mem::forget(e);
 }
 
@@ -142,27 +156,34 @@ fn body_zadd<const N: usize>(h: [usize; N], reg: Reg) {
 /// ZINCRBY z incr m on an existing sorted set: any member, any increment (any f64 bit pattern).
 /// If the resulting score is NaN (NaN increment, or inf + -inf) the command must be refused and
 /// leave the set unchanged; otherwise new score = old + incr (or incr for a new member).
-fn body_zincrby<const N: usize>(h: [usize; N], reg: Reg) {
+fn body_zincrby<const N: usize>(h: [usize; N], reg: Reg, lvl: usize) {
     let (e, al, k, s) = z_state::<N>(h);
     let m: u8 = kani::any();
     let incr: f64 = kani::any();
     let pos = pos_of(&k, m);
-    let want = match pos {
-        Some(i) => s[i] + incr,
-        None => incr,
-    };
+    // the result is NaN iff the increment is NaN or the operands are infinities of opposite sign
+    // (decided without performing the addition: Kani flags every NaN-producing float operation)
+    let nan_result = incr.is_nan()
+        || match pos {
+            Some(i) => s[i].is_infinite() && incr.is_infinite() && s[i] != incr,
+            None => false,
+        };
     match reg {
         Reg::All => {}
-        Reg::Rest => kani::assume(!want.is_nan()),
-        Reg::Kf => kani::assume(want.is_nan()),
+        Reg::Rest => kani::assume(!nan_result),
+        Reg::Kf => kani::assume(nan_result),
     }
-    ZL::verif_set_level_any();
+    ZL::verif_set_level(lvl);
     let r = std::mem::ManuallyDrop::new(e.zincrby(0, KEY.to_vec(), vec![m], incr));
-    if want.is_nan() {
+    if nan_result {
         assert!(r.is_err(), "ZINCRBY whose result is NaN must be refused");
         let c = al.verif_check();
         assert!(chain_same(&c, &k, &s), "refused ZINCRBY leaves the set unchanged");
     } else {
+        let want = match pos {
+            Some(i) => s[i] + incr,
+            None => incr,
+        };
         match &*r {
             Ok(ns) => assert!(ns.to_bits() == want.to_bits(), "ZINCRBY reply = old score + increment"),
             Err(_) => assert!(false, "ZINCRBY with a numeric result must succeed"),
@@ -178,12 +199,8 @@ fn body_zincrby<const N: usize>(h: [usize; N], reg: Reg) {
             i += 1;
         }
     }
-    if N >= 1 && reg != Reg::Rest {
-        kani::cover!(pos.is_some() && !incr.is_nan() && want.is_nan(), "inf + -inf");
-    }
-    if reg != Reg::Kf {
-        kani::cover!(pos.is_some() && !want.is_nan(), "existing member re-scored");
-    }
+    let w = if reg == Reg::Kf { true } else { pos.is_some() && !nan_result && incr == f64::INFINITY };
+    kani::cover!(w, "witness: existing member incremented to +inf");
     std::mem::forget(e);
 }
 
@@ -213,8 +230,7 @@ fn body_zrem<const N: usize>(h: [usize; N]) {
     } else {
         assert!(z_kind(&e, KEY) == 1, "key stays while members remain");
     }
-    kani::cover!(pos.is_some(), "member removed");
-    kani::cover!(pos.is_none(), "absent member");
+    kani::cover!(pos.is_some(), "witness: member removed");
     std::mem::forget(e);
 }
 
@@ -280,12 +296,8 @@ fn body_zrange<const N: usize>(h: [usize; N], reg: Reg) {
             }
         }
     }
-    if reg != Reg::Kf {
-        kani::cover!(items.len() == N && reverse && start == 0 && stop == -1, "ZREVRANGE 0 -1 whole set");
-        kani::cover!(items.len() == 1 && start < 0 && !reverse, "negative start");
-    } else {
-        kani::cover!(true, "region reachable");
-    }
+    let w = if reg == Reg::Kf { true } else { items.len() == N && reverse && start == 0 && stop == -1 };
+    kani::cover!(w, "witness: ZREVRANGE 0 -1 whole set");
     let c = al.verif_check();
     assert!(chain_same(&c, &k, &s), "ZRANGE does not change the set");
     std::mem::forget(e);
@@ -310,8 +322,7 @@ fn body_zrank<const N: usize>(h: [usize; N]) {
         }
         _ => assert!(false, "ZRANK/ZSCORE/ZCARD on a sorted set must succeed"),
     }
-    kani::cover!(reverse && pos == Some(0), "ZREVRANK of the lowest member");
-    kani::cover!(pos.is_none(), "absent member");
+    kani::cover!(reverse && pos == Some(0), "witness: ZREVRANK of the lowest member");
     let c = al.verif_check();
     assert!(chain_same(&c, &k, &s), "queries do not change the set");
     std::mem::forget(e);
@@ -367,33 +378,90 @@ fn body_zrangebyscore<const N: usize>(h: [usize; N]) {
         }
         i += 1;
     }
-    kani::cover!(exp_n == N && reverse, "whole set reversed");
-    kani::cover!(lo > hi, "reversed bounds");
+    kani::cover!(exp_n == N && reverse, "witness: whole set reversed");
     std::mem::forget(e);
 }
 
 // ---------------------------------------------------------------- harnesses
-// (written out one by one so that replay.py finds `fn <name>(` in this file)
-macro_rules! zse_attrs {
-    ($(#[$m:meta])* fn $name:ident() $b:block) => {
-        #[kani::proof]
-        #[kani::unwind(5)]
-        #[kani::stub(std::time::Instant::now, crate::verif_common::now_fixed)]
-        #[kani::stub(catch_unwind, cu_stub)]
-        #[kani::stub(rand::thread_rng, fake_thread_rng)]
-        #[kani::stub(crate::storage::skiplist::SkipList::random_level, crate::storage::skiplist::SkipList::verif_rl)]
-        $(#[$m])*
-        fn $name() $b
-    };
+// Written out one by one (replay.py looks for `fn <name>(` in this file).
+#[kani::proof]
+#[kani::unwind(5)]
+#[kani::stub(std::time::Instant::now, crate::verif_common::now_fixed)]
+#[kani::stub(catch_unwind, cu_stub)]
+#[kani::stub(crate::storage::skiplist::SkipList::new, new_cut)]
+#[kani::stub(crate::storage::skiplist::SkipList::random_level, crate::storage::skiplist::SkipList::verif_rl)]
+fn c04_e_zadd_rest() {
+    body_zadd::<1>([1], Reg::Rest, 1);
 }
-
-zse_attrs! { fn c04_e_zadd_rest() { body_zadd::<1>([1], Reg::Rest) } }
-zse_attrs! { fn c04_e_zadd_kf() { body_zadd::<1>([1], Reg::Kf) } }
-zse_attrs! { fn c04_e_zincrby_rest() { body_zincrby::<1>([1], Reg::Rest) } }
-zse_attrs! { fn c04_e_zincrby_kf() { body_zincrby::<1>([1], Reg::Kf) } }
-zse_attrs! { fn c04_e_zrem_n1() { body_zrem::<1>([1]) } }
-zse_attrs! { fn c04_e_zrem_n2() { body_zrem::<2>([1, 2]) } }
-zse_attrs! { fn c04_e_zrange_rest() { body_zrange::<2>([1, 1], Reg::Rest) } }
-zse_attrs! { fn c04_e_zrange_kf() { body_zrange::<2>([1, 1], Reg::Kf) } }
-zse_attrs! { fn c04_e_zrank_n2() { body_zrank::<2>([2, 1]) } }
-zse_attrs! { fn c04_e_zrangebyscore_n2() { body_zrangebyscore::<2>([1, 2]) } }
+#[kani::proof]
+#[kani::unwind(5)]
+#[kani::stub(std::time::Instant::now, crate::verif_common::now_fixed)]
+#[kani::stub(catch_unwind, cu_stub)]
+#[kani::stub(crate::storage::skiplist::SkipList::new, new_cut)]
+#[kani::stub(crate::storage::skiplist::SkipList::random_level, crate::storage::skiplist::SkipList::verif_rl)]
+fn c04_e_zadd_kf() {
+    body_zadd::<1>([1], Reg::Kf, 1);
+}
+#[kani::proof]
+#[kani::unwind(5)]
+#[kani::stub(std::time::Instant::now, crate::verif_common::now_fixed)]
+#[kani::stub(catch_unwind, cu_stub)]
+#[kani::stub(crate::storage::skiplist::SkipList::new, new_cut)]
+#[kani::stub(crate::storage::skiplist::SkipList::random_level, crate::storage::skiplist::SkipList::verif_rl)]
+fn c04_e_zincrby_rest() {
+    body_zincrby::<1>([1], Reg::Rest, 0);
+}
+#[kani::proof]
+#[kani::unwind(5)]
+#[kani::stub(std::time::Instant::now, crate::verif_common::now_fixed)]
+#[kani::stub(catch_unwind, cu_stub)]
+#[kani::stub(crate::storage::skiplist::SkipList::new, new_cut)]
+#[kani::stub(crate::storage::skiplist::SkipList::random_level, crate::storage::skiplist::SkipList::verif_rl)]
+fn c04_e_zincrby_kf() {
+    body_zincrby::<1>([1], Reg::Kf, 0);
+}
+#[kani::proof]
+#[kani::unwind(5)]
+#[kani::stub(std::time::Instant::now, crate::verif_common::now_fixed)]
+#[kani::stub(catch_unwind, cu_stub)]
+#[kani::stub(crate::storage::skiplist::SkipList::new, new_cut)]
+#[kani::stub(crate::storage::skiplist::SkipList::random_level, crate::storage::skiplist::SkipList::verif_rl)]
+fn c04_e_zrem_n1() {
+    body_zrem::<1>([1]);
+}
+#[kani::proof]
+#[kani::unwind(5)]
+#[kani::stub(std::time::Instant::now, crate::verif_common::now_fixed)]
+#[kani::stub(catch_unwind, cu_stub)]
+#[kani::stub(crate::storage::skiplist::SkipList::new, new_cut)]
+#[kani::stub(crate::storage::skiplist::SkipList::random_level, crate::storage::skiplist::SkipList::verif_rl)]
+fn c04_e_zrange_rest() {
+    body_zrange::<2>([1, 1], Reg::Rest);
+}
+#[kani::proof]
+#[kani::unwind(5)]
+#[kani::stub(std::time::Instant::now, crate::verif_common::now_fixed)]
+#[kani::stub(catch_unwind, cu_stub)]
+#[kani::stub(crate::storage::skiplist::SkipList::new, new_cut)]
+#[kani::stub(crate::storage::skiplist::SkipList::random_level, crate::storage::skiplist::SkipList::verif_rl)]
+fn c04_e_zrange_kf() {
+    body_zrange::<2>([1, 1], Reg::Kf);
+}
+#[kani::proof]
+#[kani::unwind(5)]
+#[kani::stub(std::time::Instant::now, crate::verif_common::now_fixed)]
+#[kani::stub(catch_unwind, cu_stub)]
+#[kani::stub(crate::storage::skiplist::SkipList::new, new_cut)]
+#[kani::stub(crate::storage::skiplist::SkipList::random_level, crate::storage::skiplist::SkipList::verif_rl)]
+fn c04_e_zrank_n2() {
+    body_zrank::<2>([2, 1]);
+}
+#[kani::proof]
+#[kani::unwind(5)]
+#[kani::stub(std::time::Instant::now, crate::verif_common::now_fixed)]
+#[kani::stub(catch_unwind, cu_stub)]
+#[kani::stub(crate::storage::skiplist::SkipList::new, new_cut)]
+#[kani::stub(crate::storage::skiplist::SkipList::random_level, crate::storage::skiplist::SkipList::verif_rl)]
+fn c04_e_zrangebyscore_n2() {
+    body_zrangebyscore::<2>([1, 2]);
+}
